@@ -287,6 +287,16 @@ func (m *CSMatrix) Mmap(ctx context.Context) error {
 	if start != nnz {
 		panic(fmt.Sprintf("size mismatch: start %#v != nnz %#v", start, nnz))
 	}
+	// The whole copy succeeded; only now re-point the major spans
+	// into the mapping, so a failed/cancelled call leaves m untouched.
+	start = 0
+	for major := range m.Entries {
+		stride := len(m.Entries[major])
+		if stride > 0 {
+			m.Entries[major] = entries[start : start+stride : start+stride]
+		}
+		start += stride
+	}
 	logger.Trace().Msg("finishing")
 	if m.mapped != nil {
 		// we already copied
